@@ -21,6 +21,7 @@ class Sandbox(object):
         self.root = tempfile.mkdtemp(prefix='pyvc-replay-', dir=base)
         self.home = os.path.join(self.root, 'home')
         os.makedirs(self.home)
+        os.makedirs(os.path.join(self.root, 'vol'))
 
     def path(self, *parts):
         return os.path.join(self.root, *parts)
@@ -84,6 +85,38 @@ class Sandbox(object):
         except subprocess.TimeoutExpired as t:
             return {'exit': None, 'timeout': timeout, 'stdout': '',
                     'stderr': 'TIMEOUT', 'cmd': ' '.join(cmd[1:])}
+
+    def run_faulty(self, tool, args, cfg, env=None, cwd=None, timeout=60):
+        """run the tool under pyvc/faultrun.py (mutating os calls counted;
+        kill/fail injection)"""
+        import json
+        e = {'PATH': os.environ.get('PATH', ''), 'HOME': self.home,
+             'XDG_DATA_HOME': os.path.join(self.home, '.local', 'share'),
+             'LANG': 'C.UTF-8', 'LC_ALL': 'C.UTF-8',
+             'PYTHONPATH': self.repo}
+        e.update(env or {})
+        cfg = dict(cfg)
+        cfg.setdefault('log', os.path.join(self.root, 'faultlog.json'))
+        driver = os.path.join(os.path.dirname(os.path.abspath(__file__)),
+                              'faultrun.py')
+        cmd = [REAL_PYTHON, driver, os.path.join(self.repo, tool),
+               json.dumps(cfg)] + list(args)
+        try:
+            p = subprocess.run(cmd, capture_output=True, text=True, env=e,
+                               cwd=cwd or self.root, timeout=timeout,
+                               errors='surrogateescape')
+            out = {'exit': p.returncode, 'stdout': p.stdout[-4000:],
+                   'stderr': p.stderr[-4000:]}
+        except subprocess.TimeoutExpired:
+            out = {'exit': None, 'timeout': timeout, 'stdout': '',
+                   'stderr': 'TIMEOUT'}
+        try:
+            with open(cfg['log']) as f:
+                out['ops'] = json.load(f)
+        except Exception:
+            out['ops'] = None
+        out['cmd'] = '%s %s' % (tool, ' '.join(args))
+        return out
 
     # -- observing ----------------------------------------------------------
     def snapshot(self, top=None):
